@@ -35,7 +35,8 @@ ASSUMPTIONS = [
     'supported size family = DESIGN.md section 1.2 (pv/families.py)',
     'numpy packbits / integer arithmetic are correct',
 ]
-REQUIRED_COUNTERS = ['objects_checked', 'history_steps_checked', 'commutation_pairs_checked',
+REQUIRED_COUNTERS = ['objects_checked', 'objects_with_numpy_integer_sizes',
+                     'history_steps_checked', 'commutation_pairs_checked',
                      'rank_computations']
 EXHAUSTIVE = True
 EXHAUSTIVE_SCOPE = ('all supported sizes with components <= B (see '
@@ -51,6 +52,9 @@ BOUNDS = {
                  'Color488Code': 8, 'Color666ToricCode': 8,
                  'Color666PlanarCode': 16},
 }
+
+
+NUMPY_SIZE_N_MAX = 400
 
 
 def bound(cls_name, tier):
@@ -198,10 +202,20 @@ def refine(desc, tag):
     return tag
 
 
-def run_one(cls_name, size, dname, kwargs, out, beyond=False):
-    desc = {'cls': cls_name, 'size': list(size), 'deformation': dname,
-            'kwargs': kwargs}
+SIZE_TYPES = {'int64': np.int64, 'int32': np.int32}
+
+
+def run_one(cls_name, size, dname, kwargs, out, beyond=False,
+            size_type=None):
+    desc = {'cls': cls_name, 'size': [int(x) for x in size],
+            'deformation': dname, 'kwargs': kwargs}
     rect = 'rect' if len(set(size)) > 1 else 'cubic'
+    if size_type:
+        # the same lattice, its sizes handed over as numpy integers (from
+        # np.arange, an array of sizes, a DataFrame column, ...)
+        desc['size_type'] = size_type
+        rect = 'numpy-' + rect
+        size = tuple(SIZE_TYPES[size_type](x) for x in size)
     try:
         code = fam.build(cls_name, size, dname, kwargs)
         facts = check_code(code, desc, out)
@@ -220,6 +234,8 @@ def run_one(cls_name, size, dname, kwargs, out, beyond=False):
         out.case(desc, nontrivial=False)
         return
     out.count('objects_checked')
+    if size_type:
+        out.count('objects_with_numpy_integer_sizes')
     if beyond:
         out.count('objects_beyond_bound')
     if dname:
@@ -239,6 +255,11 @@ def run_task(task, out):
     defs = fam.deformations(cls_name)
     for dname, kwargs in defs:
         run_one(cls_name, size, dname, kwargs, out, task.get('beyond_bound'))
+    if fam.n_estimate(cls_name, size) <= NUMPY_SIZE_N_MAX:
+        st = ['int64', 'int32'][sum(size) % 2]
+        for dname, kwargs in defs[:2]:
+            run_one(cls_name, size, dname, kwargs, out,
+                    task.get('beyond_bound'), size_type=st)
     # History on ONE object: every derived datum is read (by the oracle),
     # then the object is deformed and judged again, for each offered
     # deformation in turn -- validity must not depend on what was computed
@@ -278,7 +299,7 @@ KNOWN = {
 def classify(v):
     m = v['mechanism']
     tag = m.rsplit('/', 1)[-1]
-    m = m.replace('/after-history', '')
+    m = m.replace('/after-history', '').replace('/numpy-', '/')
     if (m.startswith('Color666ToricCode/') and '/rect/' in m
             and (tag.startswith('logical-') or tag == 'raises-KeyError')):
         if tag == 'raises-KeyError' and \
